@@ -10,21 +10,21 @@ From Coq Require Import NArith.
 From BS Require Import Abs.Values Abs.ValuesProofs.
 
 (* Writers separated by a drain (between two writes by different peers the system is quiescent at
-   least once), and a joiner does not write before its join has settled: then at EVERY quiescent
+   least once), and a joiner does not write while its snapshot is still on its way to it: then at EVERY quiescent
    state every peer of the session holds the value of the most recent write — whoever wrote it,
    for writes in consecutive events, for receivers that apply several updates before their
    detector runs, for any number of peers and any interleaving, with joins anywhere. *)
 Theorem C02_values_converge :
   forall n tr s',
     vrun (vinit n) tr = Some s' ->
-    drain_separated (vinit n) tr -> joiners_settled (vinit n) tr ->
+    drain_separated (vinit n) tr -> joiners_received (vinit n) tr ->
     vquiescent s' ->
     forall p, peers s' p -> pcur s' p = last (written tr).
 Proof. exact ValuesProofs.C02_values_converge. Qed.
 
 Theorem C02_every_quiescent_state :
   forall n tr1 tr2 s1,
-    drain_separated (vinit n) (tr1 ++ tr2) -> joiners_settled (vinit n) (tr1 ++ tr2) ->
+    drain_separated (vinit n) (tr1 ++ tr2) -> joiners_received (vinit n) (tr1 ++ tr2) ->
     is_Some (vrun (vinit n) (tr1 ++ tr2)) ->
     vrun (vinit n) tr1 = Some s1 -> vquiescent s1 ->
     forall p, peers s1 p -> pcur s1 p = last (written tr1).
@@ -34,20 +34,37 @@ Proof. exact ValuesProofs.C02_every_quiescent_state. Qed.
 Theorem C02_joiner_gets_current_value :
   forall n tr1 c tr2 s',
     let tr := tr1 ++ VJoin c :: tr2 in
-    vrun (vinit n) tr = Some s' -> drain_separated (vinit n) tr -> joiners_settled (vinit n) tr -> vquiescent s' ->
+    vrun (vinit n) tr = Some s' -> drain_separated (vinit n) tr -> joiners_received (vinit n) tr -> vquiescent s' ->
     c ∈ vconn s' /\ pcur s' c = pcur s' host /\ pcur s' c = last (written tr).
 Proof. exact ValuesProofs.join_gets_current_value_drain_separated. Qed.
 
-(* Known finding S22: drain separation alone is not enough — a client that writes in the window
-   between its join and the settling of its snapshot loses the write (the snapshot's token
-   swallows it). The hypothesis `joiners_settled` above is exactly what excludes this class. *)
+(* The premise `joiners_received` (a client that joined since the last quiescent state does not
+   write while its snapshot is still travelling towards it) cannot be dropped in this abstraction,
+   where the key exists on a joiner from the start: the joiner's announcement would cross its
+   snapshot. In the real code a joiner has the entity only once the snapshot (or a live spawn)
+   delivered it, so a fresh joiner cannot write earlier. Before the repair e13e196 the stronger
+   `joiners_settled` was needed (defect S22: a write in the window between a network apply and the
+   next detector run was swallowed); that history now converges (ValuesProofs.C02_join_write_example). *)
 Theorem C02_refuted_in_join_window :
-  exists n tr s' p,
-    vrun (vinit n) tr = Some s' /\ drain_separated (vinit n) tr /\ vquiescent s' /\ peers s' p /\
-    pcur s' p <> last (written tr) /\ ~ joiners_settled (vinit n) tr.
-Proof. exact ValuesProofs.C02_join_write_refuted. Qed.
+  exists n tr s' p q,
+    vrun (vinit n) tr = Some s' /\ drain_separated (vinit n) tr /\ vquiescent s' /\ peers s' p /\ peers s' q /\
+    pcur s' p <> last (written tr) /\ pcur s' p <> pcur s' q /\ ~ joiners_received (vinit n) tr.
+Proof. exact ValuesProofs.C02_join_window_refuted. Qed.
+
+(* every local write is announced unless a network apply overtakes it before the detector runs;
+   a peer becomes armed (will emit) only by its own write *)
+Theorem C02_armed_only_by_write :
+  forall s e s' p,
+    vstep s e = Some s' -> varmed s p = false -> varmed s' p = true -> exists v, e = VWrite p v.
+Proof. exact ValuesProofs.armed_only_by_write. Qed.
+
+Theorem C02_write_arms :
+  forall s p v s', vstep s (VWrite p v) = Some s' -> varmed s' p = true.
+Proof. exact ValuesProofs.write_arms. Qed.
 
 Print Assumptions C02_values_converge.
 Print Assumptions C02_every_quiescent_state.
 Print Assumptions C02_joiner_gets_current_value.
 Print Assumptions C02_refuted_in_join_window.
+Print Assumptions C02_armed_only_by_write.
+Print Assumptions C02_write_arms.
